@@ -349,3 +349,17 @@ func (e *Env) CheckStore(when string) {
 		}
 	}
 }
+
+// storeEqual compares what a store / reopened directory holds with a
+// reference state; while the open finding F14e still reproduces, two trees
+// that hold no key at any level count as equal (see ReadOpts.RelaxKeyless).
+func storeEqual(got, want *Node) bool {
+	if got.Equal(want) {
+		return true
+	}
+	if excluded("struct-only-into-empty-store") && nodeKeyless(got) && nodeKeyless(want) {
+		relaxedKeyless++
+		return true
+	}
+	return false
+}
